@@ -60,7 +60,10 @@ func ErrReceivedMessageFromUnexpectedPeer(peerId string, swapId *SwapId) error {
 type SwapService struct {
 	swapServices *SwapServices
 
-	activeSwaps    map[string]*SwapStateMachine
+	activeSwaps map[string]*SwapStateMachine
+	// activeChannels holds the short channel id every active swap was locked
+	// with, keyed by swap id.
+	activeChannels map[string]string
 	BitcoinEnabled bool
 	LiquidEnabled  bool
 	sync.RWMutex
@@ -72,6 +75,7 @@ func NewSwapService(services *SwapServices) *SwapService {
 	return &SwapService{
 		swapServices:   services,
 		activeSwaps:    map[string]*SwapStateMachine{},
+		activeChannels: map[string]string{},
 		LiquidEnabled:  services.liquidEnabled,
 		BitcoinEnabled: services.bitcoinEnabled,
 		lastMsgLog:     map[string]string{},
@@ -993,6 +997,7 @@ func (s *SwapService) RemoveActiveSwap(swapId string) {
 	defer s.Unlock()
 	delete(s.lastMsgLog, swapId)
 	delete(s.activeSwaps, swapId)
+	delete(s.activeChannels, swapId)
 }
 
 // swapIdKnown reports whether a swap with this id is active or stored.
@@ -1026,14 +1031,17 @@ func (s *SwapService) lockSwap(swapId, channelId string, fsm *SwapStateMachine) 
 	// Check if we already have an active swap on the same channel. The short
 	// channel id is compared in one spelling: LND writes it with ':' and CLN
 	// with 'x'.
-	for id, swap := range s.activeSwaps {
-		if lightning.Scid(swap.Data.GetScid()).ClnStyle() == lightning.Scid(channelId).ClnStyle() {
+	// The channel is taken from the lock itself: the data of a swap that was
+	// just created is empty until its first event has been processed.
+	for id, scid := range s.activeChannels {
+		if lightning.Scid(scid).ClnStyle() == lightning.Scid(channelId).ClnStyle() {
 			return ActiveSwapError{channelId: channelId, swapId: id}
 		}
 	}
 
 	// Add active swap
 	s.activeSwaps[swapId] = fsm
+	s.activeChannels[swapId] = channelId
 	return nil
 }
 
